@@ -30,8 +30,11 @@ def run(prop, tier, single=None):
             with open(dump, "w") as f:
                 f.writelines(keep)
         trace = os.path.join(wd, "ns.trace")
-        so = C.run_harness(["ns-run", "--in", dump, "--out", trace] + (["--all"] if single is not None else []),
-                           timeout=3000)
+        import cli
+        xq, _xe = cli.build_tools()
+        so = C.run_harness(["ns-run", "--in", dump, "--out", trace, "--xq", xq,
+                            "--xq-every", "1" if single is not None else ("80" if tier == "quick" else "400")]
+                           + (["--all"] if single is not None else []), timeout=3000)
         st = json.loads(so.strip().splitlines()[-1])
         n = C.count_lines(trace)
         cfgname = "Trace_Ns.%d.cfg" % os.getpid()
@@ -71,7 +74,7 @@ def run(prop, tier, single=None):
             "a caller-side default namespace is not exercised (XPath 1.0 has none)",
             "the identity of namespace nodes ACROSS elements (//namespace::*) is not compared: this crate gives an "
             "inherited namespace node the identity of its declaration; only per-element namespace axes are checked",
-            "xq --setns is not exercised here (C17 runs the tools)",
+            "xq --setns xmlns:e=<uri> is run on every 80th (thorough: 400th) document for the 7 name tests under both bindings",
         ]
         return out.finish()
     finally:
